@@ -1,9 +1,38 @@
 #!/bin/sh
 # MANIFEST.setup_cmd: build the framework from files on disk only (offline).
+# Builds exactly what the registered checks need: their theorem modules, model drivers and
+# harness engines (checks/*.json), so an unregistered work-in-progress file cannot break setup.
 set -e
 cd "$(dirname "$0")/.."
 export CARGO_NET_OFFLINE=true
 cp /repo/Cargo.lock harness/Cargo.lock
 python3 tools/genroot.py
-(cd lean && lake build OrdModel Driver $(grep -A1 '^\[\[lean_exe\]\]' lakefile.toml | sed -n 's/^name = "\(.*\)"/\1/p'))
-(cd harness && cargo build --offline --workspace)
+LEAN_TARGETS=$(python3 - <<'PY'
+import json,glob
+t=set()
+for f in glob.glob('checks/C*.json'):
+    s=json.load(open(f))
+    t.add(s['theorems']['module'])
+    for x in s.get('streams',[]): t.add(x['driver'])
+print(' '.join(sorted(t)))
+PY
+)
+ENGINES=$(python3 - <<'PY'
+import json,glob
+t=set()
+for f in glob.glob('checks/C*.json'):
+    s=json.load(open(f))
+    for x in s.get('streams',[]): t.add(x['engine'])
+print(' '.join('-p '+e for e in sorted(t)))
+PY
+)
+python3 - <<'PY'
+import sys
+sys.path.insert(0,'tools')
+import json,glob,extract
+for f in glob.glob('checks/C*.json'):
+    for name in json.load(open(f)).get('extract',[]):
+        extract.run(name)
+PY
+(cd lean && lake build $LEAN_TARGETS)
+(cd harness && cargo build --offline -p probe $ENGINES)
